@@ -682,11 +682,14 @@ class AsyncFIXConnection:
         if self._connection_state != ConnectionState.RESENDREQ_AWAITING:
             await self._state_set(ConnectionState.ACTIVE)
 
-    async def _process_seqreset(self, seqreset_msg: FIXMessage):
+    async def _process_seqreset(self, seqreset_msg: FIXMessage) -> bool:
         """Handles SequenceReset(35=4) message.
 
         Args:
             seqreset_msg: SequenceReset(35=4) FIXMessage
+
+        Returns:
+            True - reset was applied, False - message must be ignored
         """
         assert seqreset_msg.msg_type == FMsg.SEQUENCERESET
 
@@ -695,6 +698,15 @@ class AsyncFIXConnection:
                 self.log.warning(
                     "Getting SEQUENCERESET(GapFillFlag=Y) while not filling gaps"
                 )
+            msg_seq_num = int(seqreset_msg[FTag.MsgSeqNum])
+            if (
+                msg_seq_num != self._session.next_num_in
+                or int(seqreset_msg[FTag.NewSeqNo]) <= msg_seq_num
+            ):
+                # GapFill is honoured only in sequence and only forward
+                #  (higher MsgSeqNum is a gap itself, ResendRequest() follows)
+                self.log.warning(f"SequenceReset-GapFill ignored: {seqreset_msg}")
+                return False
         else:
             self.log.info(f"SequenceReset received from peer: {seqreset_msg}")
 
@@ -708,6 +720,7 @@ class AsyncFIXConnection:
         self._journaler.set_seq_num(
             self._session, next_num_in=int(seqreset_msg[FTag.NewSeqNo])
         )
+        return True
 
     async def _finalize_message(self, msg: FIXMessage, raw_msg: bytes):
         """Final message processing (MsgSeqNum checks / journaling).
@@ -796,6 +809,7 @@ class AsyncFIXConnection:
             )
             return
         is_valid_msg_num = False
+        is_seqreset_ignored = False
         try:
             assert self._connection_state >= ConnectionState.NETWORK_CONN_ESTABLISHED
 
@@ -820,7 +834,7 @@ class AsyncFIXConnection:
             if msg.msg_type == FMsg.LOGON:
                 await self._process_logon(msg)
             elif msg.msg_type == FMsg.SEQUENCERESET:
-                await self._process_seqreset(msg)
+                is_seqreset_ignored = not await self._process_seqreset(msg)
             elif msg.msg_type == FMsg.LOGOUT:
                 await self._process_logout(msg)
 
@@ -830,6 +844,8 @@ class AsyncFIXConnection:
 
             msg_seq_num = int(msg[FTag.MsgSeqNum])
             is_valid_msg_num = await self._check_seqnum_gaps(msg_seq_num)
+            if is_seqreset_ignored:
+                is_valid_msg_num = False
 
             if msg.msg_type == FMsg.RESENDREQUEST:
                 await self._process_resend(msg)
